@@ -427,3 +427,6 @@ func (s *Sched) BlockedActors() []string {
 	}
 	return res
 }
+
+// Gate is a scheduling point placed by a harness actor itself (between two calls into the code under test).
+func (s *Sched) Gate(point string) { s.gate(point) }
